@@ -9,7 +9,7 @@ use std::cell::RefCell;
 use std::rc::Rc;
 
 use flipdot::Sign;
-use flipdot_core::{PageFlipStyle, State};
+use flipdot_core::{PageFlipStyle, PageId, State};
 
 use crate::bus::{DirectBus, OnPanic, World, MSG_FAULTS};
 use crate::core::{stable_hash, Cx, Scenario, Tier, Violation};
@@ -174,7 +174,21 @@ impl Scenario for C08 {
             // 2./3. send pages and flip, possibly twice
             let sends = 1 + cx.draw(2);
             for _ in 0..sends {
-                let pages = gens::pages(cx, t, 4);
+                let mut pages = gens::pages(cx, t, 4);
+                if cx.chance(1, 4) {
+                    // a page obtained from the controller itself (`Sign::create_page`) and drawn on
+                    cx.probe("page_from_sign_create_page");
+                    let mut p = sign.create_page(PageId(cx.draw(256) as u8));
+                    let (w, h) = (p.width(), p.height());
+                    if w > 0 && h > 0 {
+                        for _ in 0..cx.draw(12) {
+                            let (x, y) = (cx.draw(u64::from(w)) as u32, cx.draw(u64::from(h)) as u32);
+                            p.set_pixel(x, y, !cx.chance(1, 4));
+                        }
+                    }
+                    let at = cx.draw(pages.len() as u64 + 1) as usize;
+                    pages.insert(at, p);
+                }
                 cx.probe(&format!("pages_sent:{}", pages.len()));
                 let out = if cx.chance(1, 3) {
                     cx.probe("page_list_that_looks_at_the_bus");
